@@ -68,3 +68,42 @@ Section CheckCC.
       intros m Hm. specialize (Ef m Hm). apply negb_true_iff in Ef. apply negb_false_iff in Ef. exact Ef.
   Qed.
 End CheckCC.
+
+(* ------------------------------------------------------------------ running the model on a schedule *)
+Section RunCC.
+  Variable boot : conf.
+  Variable page1 : bool.
+
+  Definition model_step_cc (x : cxstate) (id : nat) (ev : event) (extra : list msg) : option cxstate :=
+    let r := exec_cc boot page1 id ev (cx_nodes x id) in
+    if cev_okb x id ev && forallb (emit_okb id (fst (fst r))) extra
+    then Some (mkCX (upd (cx_nodes x) id (fst r)) (cx_msgs x ++ snd r ++ extra))
+    else None.
+
+  Fixpoint run_cc (x : cxstate) (tr : list (nat * event * list msg)) : option cxstate :=
+    match tr with
+    | [] => Some x
+    | (id, ev, extra) :: t =>
+        match model_step_cc x id ev extra with
+        | Some x' => run_cc x' t
+        | None => None
+        end
+    end.
+
+  Lemma model_step_cc_sound : forall x id ev extra x', model_step_cc x id ev extra = Some x' -> cxstep boot page1 x x'.
+  Proof.
+    intros x id ev extra x' H. unfold model_step_cc in H.
+    destruct (cev_okb x id ev && forallb (emit_okb id (fst (fst (exec_cc boot page1 id ev (cx_nodes x id))))) extra) eqn:E; [|discriminate].
+    injection H as <-. apply andb_true_iff in E as [E1 E2]. apply CXStep; [|exact E2].
+    intros m ->. cbn [cev_okb] in E1. apply andb_true_iff in E1 as [A B].
+    split; [apply memb_In; exact A|apply Nat.eqb_eq; exact B].
+  Qed.
+
+  Lemma run_cc_reachable : forall tr x x', cxreachable boot page1 x -> run_cc x tr = Some x' -> cxreachable boot page1 x'.
+  Proof.
+    induction tr as [|[[id ev] extra] t IH]; intros x x' Hx H; cbn [run_cc] in H.
+    - injection H as <-. exact Hx.
+    - destruct (model_step_cc x id ev extra) as [x1|] eqn:E; [|discriminate].
+      apply (IH x1 x'); [|exact H]. eapply CXR_step; [exact Hx|]. eapply model_step_cc_sound. exact E.
+  Qed.
+End RunCC.
